@@ -455,6 +455,41 @@ func (r *Run) Finish() int {
 	return exit
 }
 
+// ReplaySig returns the signature recorded in a replay file ("" if absent).
+func ReplaySig(path string) string {
+	b, err := os.ReadFile(path)
+	if err != nil {
+		return ""
+	}
+	var rep struct {
+		Sig string `json:"sig"`
+	}
+	json.Unmarshal(b, &rep)
+	return rep.Sig
+}
+
+// ReportReplay prints the outcome of re-executing one recorded case and returns the exit status:
+// 1 iff the recorded violation (same signature) shows again.
+func ReportReplay(property, path string, cj []byte, vs []Violation) int {
+	want := ReplaySig(path)
+	fmt.Printf("replay of %s (recorded signature %q): case %s\n", path, want, string(cj))
+	hit := false
+	for _, v := range vs {
+		mark := ""
+		if want == "" || v.Sig == want {
+			hit = true
+			mark = "  <- the recorded violation"
+		}
+		fmt.Printf("violation sig=%s: %s%s\n", v.Sig, v.Msg, mark)
+	}
+	if !hit {
+		fmt.Println("the recorded violation does not occur on this tree")
+		return 0
+	}
+	fmt.Printf("VIOLATION property=%s replay=%s\n", property, path)
+	return 1
+}
+
 // LoadReplay reads a replay file and returns the raw case.
 func LoadReplay(path string) (property string, c json.RawMessage, err error) {
 	b, err := os.ReadFile(path)
